@@ -4,6 +4,9 @@ import Gql.Types.WFSchema
 import Gql.Generated.IntrospectionOptions
 import Gql.Proofs.Introspection
 import Gql.Proofs.ClientSchema
+import Gql.Proofs.ClientNoCrash
+import Gql.Proofs.IntroConform
+import Gql.Generated.IntrospectionTypes
 /-!
 # C18 — Introspection describes the schema truthfully and can rebuild it
 
@@ -18,8 +21,10 @@ Parameters instead of models: `printV` (`print_ast` of a default value) and `env
 (`parse_const_value`) with the law `parseV (printV v) = ok v` as a hypothesis — that law is property C08;
 `env.reserved` (the standard scalar / introspection types), `env.locOk` (`DirectiveLocation` member names),
 `env.limit` (recursion limit).  Not modelled: the executor over the meta-schema (that the query text
-validates and executes without errors is observed on the implementation by checks/c18.py), and the
-structural conformance of results to the introspection types (checked on the implementation).
+validates and executes without errors is observed on the implementation by checks/c18.py).
+Spec: `Gql.Types.Spec.Conforms` (GraphQL result coercion) against the T1 table
+`Gql.Generated.introspectionTable` (the declared fields of `introspection_types`, regenerated from
+type/introspection.py on every run).
 -/
 namespace Gql.Props.C18
 open Gql Gql.Types
@@ -86,27 +91,73 @@ theorem reintrospect {V : Type} [DecidableEq V] (env : ClientEnv V) (printV : V 
       ∀ o, introspect printV c o = introspect printV s o :=
   ⟨s, client_roundtrip env printV hpp depth s hwf, fun _ => rfl⟩
 
-/-- Full statement: `build_client_schema` never *crashes* (raises anything but its own `TypeError` /
-`GraphQLError`) on a result of the standard query — any schema, any option set. -/
-def buildClient_no_crash_on_introspect_full : Prop :=
-  ∀ (V : Type) (env : ClientEnv V) (printV : V → List Nat) (s : Schema V) (o : Options),
-    (∀ x, ¬ (env.parseV x).isCrash) → o.typeDepth < env.limit →
-    ¬ (buildClient env (introspect printV s o)).isCrash
+/-- C18 (robustness of the rebuild): `build_client_schema` never *crashes* — raises anything but its own
+`TypeError` / `GraphQLError` — on a result of the standard query: for ANY schema value (not only well-formed
+ones) and ANY option set it returns a schema or one of its own errors.  Hypotheses: `parse_const_value` itself
+does not crash, and the reference depth of the query is below the interpreter's recursion limit. -/
+theorem buildClient_no_crash_on_introspect {V : Type} (env : ClientEnv V) (printV : V → List Nat)
+    (hparse : ∀ x, ¬ (env.parseV x).isCrash) (s : Schema V) (o : Options) (hdepth : o.typeDepth < env.limit) :
+    ¬ (buildClient env (introspect printV s o)).isCrash := by
+  have := Gql.Types.buildClient_noCrash env printV (fun x => by simpa [NoCrash] using hparse x) o hdepth s
+  simpa [NoCrash] using this
 
-/-- Proved part: no crash on the full-options result of a well-formed schema (it is `ok`).  Missing: schemas
-outside `WFSchema` and reduced option sets (there the model returns `err`/`ok`; compared with the
-implementation by the correspondence run on reduced option sets, not proved). -/
-theorem buildClient_no_crash_on_introspect_partial {V : Type} [DecidableEq V] (env : ClientEnv V)
-    (printV : V → List Nat) (hpp : ∀ v, env.parseV (printV v) = .ok v) (depth : Nat) (s : Schema V)
-    (hwf : WFSchema env depth s) :
-    ¬ (buildClient env (introspect printV s (Options.full depth))).isCrash := by
-  rw [client_roundtrip env printV hpp depth s hwf]; simp [Out.isCrash]
+/-- C18 "its result conforms to the introspection types", for every option set: the result is
+`{ "__schema": v }` and `v` is a legal value of the declared type of the `__schema` meta field
+(`__Schema!`) — recursively: every entry of every object is a declared field of the corresponding
+introspection type, a field declared Non-Null is never `null`, a field declared as a list is a list (of
+conforming items), `kind` is a `__TypeKind` value name, `locations` are `__DirectiveLocation` value names,
+`String` / `Boolean` fields hold strings / booleans.  `Introspectable s`: the schema has a query root and
+its directive locations are `DirectiveLocation` members (what a `GraphQLSchema` that can execute a query
+guarantees; implied by `validate_schema == []`). -/
+theorem introspect_conforms {V : Type} (printV : V → List Nat) (s : Schema V) (o : Options)
+    (h : Introspectable s) :
+    introspect printV s o = .obj [(.schema, schemaJson printV s o)] ∧
+      Spec.Conforms Gql.Generated.introspectionTable Gql.Generated.schemaMetaFieldType (schemaJson printV s o) :=
+  ⟨rfl, Gql.Types.conf_schemaJson printV s o h⟩
+
+/-- The same for single-type lookups: `__type(name:)` yields a legal value of the declared type of the
+`__type` meta field (`__Type`, nullable), for any schema value. -/
+theorem type_lookup_conforms {V : Type} (printV : V → List Nat) (s : Schema V) (o : Options) (n : List Nat) :
+    Spec.Conforms Gql.Generated.introspectionTable Gql.Generated.typeMetaFieldType (typeLookup printV s o n) :=
+  Gql.Types.conf_typeLookup printV s o n
+
+/-- The conformance predicate discriminates: `null` is not a legal `__schema`, and an object with an
+undeclared entry is not a legal `__Type`. -/
+theorem conforms_rejects :
+    ¬ Spec.Conforms Gql.Generated.introspectionTable Gql.Generated.schemaMetaFieldType .null ∧
+    ¬ Spec.Conforms Gql.Generated.introspectionTable (.named "__Type") (.obj [(.locations, .null)]) := by
+  constructor
+  · intro h
+    cases h with
+    | null _ hn => simp [Gql.Generated.schemaMetaFieldType, ITy.isNonNull] at hn
+    | nonNull _ _ hn _ => exact hn rfl
+  · intro h
+    generalize ht : ITy.named "__Type" = t at h
+    generalize hj : Json.obj [(Key.locations, Json.null)] = j at h
+    cases h with
+    | null _ _ => cases hj
+    | nonNull _ _ _ _ => cases ht
+    | list _ _ _ => cases ht
+    | string _ => cases hj
+    | boolean _ => cases hj
+    | enum _ _ _ _ _ => cases hj
+    | object n fields kvs hl hdecl _ =>
+      cases ht
+      cases hj
+      have hf : fields = rowOf "__Type" := by
+        have := lookup_Type
+        rw [hl] at this
+        exact Option.some.inj this
+      subst hf
+      have := hdecl (.locations, .null) (by simp)
+      revert this
+      decide
 
 /-! ### Non-vacuity: a concrete well-formed schema
 
 `schema { query: Q }  interface I { f(x: In = <v> @deprecated(reason: "d")): [Int!] }
 type Q implements I { f(x: In = <v> @deprecated(reason: "d")): [Int!]  e: E @deprecated(reason: "d") }
-enum E { A }  input In @oneOf { x: Int }  scalar Int   directive @d repeatable on Q`
+enum E { A }  input In @oneOf { x: Int }  scalar Int   directive @d repeatable on QUERY`
 (names as code points: Q=81 I=73 E=69 A=65 f=102 x=120 e=101 d=100 In=73,110 Int=73,110,116). -/
 
 private def exArg : InputValue (List Nat) :=
@@ -122,9 +173,9 @@ private def exTypes : List (TypeDef (List Nat)) :=
    ⟨.scalar, [73, 110, 116], some [100], some [100], [], [], [], [], [], false⟩]
 private def exSchema : Schema (List Nat) :=
   ⟨some [100], some ([81], .object), none, none, exTypes,
-   [⟨[100], none, true, some [100], [[81]], [exArg]⟩]⟩
+   [⟨[100], none, true, some [100], [[81, 85, 69, 82, 89]], [exArg]⟩]⟩
 private def exEnv : ClientEnv (List Nat) :=
-  ⟨.ok, [⟨.scalar, [73, 110, 116], some [100], some [100], [], [], [], [], [], false⟩], fun l => l = [81], 50⟩
+  ⟨.ok, [⟨.scalar, [73, 110, 116], some [100], some [100], [], [], [], [], [], false⟩], fun l => l = [81, 85, 69, 82, 89], 50⟩
 
 example : WFSchema exEnv 9 exSchema := by decide
 example : ∀ v, exEnv.parseV (id v) = .ok v := fun _ => rfl
@@ -132,7 +183,17 @@ example : buildClient exEnv (introspect id exSchema (Options.full 9)) = .ok exSc
   client_roundtrip exEnv id (fun _ => rfl) 9 exSchema (by decide)
 -- the same schema is *not* well-formed for type_depth 1 (`f : [Int!]` is wrapped twice): the hypothesis discriminates
 example : ¬ WFSchema exEnv 1 exSchema := by decide
--- the lookup and the option enumeration on the concrete schema
+-- the concrete schema meets the hypothesis of `introspect_conforms`
+example : Introspectable exSchema := ⟨rfl, by decide⟩
+-- a parser that never crashes / a depth below the limit exist (hypotheses of `buildClient_no_crash_on_introspect`)
+example : (∀ x, ¬ (exEnv.parseV x).isCrash) ∧ (Options.full 9).typeDepth < exEnv.limit :=
+  ⟨fun _ => by simp [exEnv, Out.isCrash], by decide⟩
+-- outside `WFSchema` the builder answers with its own error, not a crash: a union whose member is not in the
+-- type list, introspected with every option switched off
+example : buildClient exEnv (introspect id
+      (⟨none, none, none, none, [⟨.union, [85], none, none, [], [], [.named [81] .object], [], [], false⟩], []⟩ :
+        Schema (List Nat)) ⟨false, false, false, false, false, false, false, 9⟩) = .err "TypeError" := by decide
+-- the option enumeration on the concrete schema
 example : (⟨false, true, false, true, false, true, false, 9⟩ : Options) ∈ Options.all 9 := by decide
 
 end Gql.Props.C18
